@@ -1119,3 +1119,55 @@ Definition c14_silent_step (closing : bool) (i : nat) (s : tstep) : bool + Z :=
   end.
 
 Definition c14_silent_none_monitor (l : list tstep) : verdict := run_monitor c14_silent_step false 0 l.
+
+(* ====================================================================================================
+   Lenient life-cycle (appended; nothing above was changed).
+   The property text of C14 orders Online / Configured / DataExchanged / Offline only; it does not say when a
+   Diagnostics event may occur.  l_step accepts Diagnostics only once Configured, which is stricter than the
+   text.  c14_monitor_lenient judges a transcript with c14_monitor_ra; only if that rejects it, the
+   Diagnostics events that occur while the peripheral is live but not yet Configured (after Online, before
+   the next Configured / Offline / ParameterError / ConfigError) -- events the property does not constrain --
+   are dropped and the transcript is judged again.  Everything else (Diagnostics while not live, the order of
+   the other events, is_live / is_running consistency, turns) is judged as before.  A transcript accepted by
+   c14_monitor_ra is accepted by definition (Proofs/DpLenient.v), so the soundness theorem carries over.
+   ==================================================================================================== *)
+
+Definition drop_event (s : tstep) : tstep :=
+  mkStep (ts_in s) (ts_raw s) (ts_out s)
+         (match ts_taken s with
+          | Some e => Some (mkEvents (ev_cycle_completed e) None)
+          | None => None
+          end)
+         (ts_obs s) (ts_op s).
+
+(* life-cycle state per current address, tracked exactly as c14_step_ra / c14_step do *)
+Definition lenient_step (st : conf * list (Z * lstate)) (s : tstep) : (conf * list (Z * lstate)) * tstep :=
+  let (c, life) := st in
+  match reset_of c s with
+  | Some (k, old, a) => ((conf_set_addr c k a, alist_set (alist_set life old LOff) a LOff), s)
+  | None =>
+      match step_event s with
+      | Some (a, ev) =>
+          match ev, alist_get LOff life a with
+          | EvDiagnostics, LOn => (st, drop_event s)
+          | _, l =>
+              match l_step l ev with
+              | Some l' => ((c, alist_set life a l'), s)
+              | None => (st, s)
+              end
+          end
+      | None => (st, s)
+      end
+  end.
+
+Fixpoint drop_unconstrained_diag (st : conf * list (Z * lstate)) (l : list tstep) : list tstep :=
+  match l with
+  | [] => []
+  | s :: r => let (st', s') := lenient_step st s in s' :: drop_unconstrained_diag st' r
+  end.
+
+Definition c14_monitor_lenient (c : conf) (hs0 : list (option handle)) (l : list tstep) : verdict :=
+  match c14_monitor_ra c hs0 l with
+  | None => None
+  | Some _ => c14_monitor_ra c hs0 (drop_unconstrained_diag (c, []) l)
+  end.
